@@ -175,6 +175,8 @@ func buildOps() []hop {
 	}
 	urlOp("url-totp", "totp", otp.URLParam{Issuer: "My Company", AccountName: "alice+x@example.com", Secret: hopSec, Digits: 8, Algorithm: otp.SHA256, Period: 60})
 	urlOp("url-hotp", "hotp", otp.URLParam{Issuer: "a/b", AccountName: "bob smith", Secret: "JBSWY3DPEHPK3PXP", Digits: 6, Algorithm: otp.SHA512})
+	urlOp("url-totp-2", "totp", otp.URLParam{Issuer: "Other & Co", AccountName: "carol", Secret: "JBSWY3DPEHPK3PXP", Digits: 6, Algorithm: otp.SHA1, Period: 45})
+	urlOp("url-hotp-2", "hotp", otp.URLParam{Issuer: "Third", AccountName: "dave@x", Secret: hopSec, Digits: 8, Algorithm: otp.SHA256})
 	for i, sp := range []string{hopSec, strings.ToLower(hopSec), " " + ref.B32Encode([]byte("another key 12345")) + "\n"} {
 		want, _ := ref.B32Classify(sp)
 		_ = want
